@@ -388,8 +388,16 @@ func harnesses(r *fw.Run) []fw.HarnessSpec {
 			if touch&2 != 0 {
 				_ = v.Hash(true)
 			}
+			kept := v // what a caller keeps of the first message (appended to a slice, say) before decoding the next one
+			var freshA tlb.Message
+			if ft := parse(c, ca); ft == nil || tlb.Unmarshal(ft, &freshA) != nil {
+				return
+			}
 			if !dec(cb) {
 				return
+			}
+			if kept.Hash(false) != tlb.Bits256(ca.ReprHash()) || kept.Hash(true) != freshA.Hash(true) {
+				c.Fail("kept-copy-changed-by-next-decode", "a copy of the first decoded message reports other hashes after the next message was decoded into the variable it was copied from")
 			}
 			if h := v.Hash(false); h != tlb.Bits256(cb.ReprHash()) {
 				c.Fail("reused-value-hash", "after decoding a second message into the same value Hash(false)=%x, the cell decoded last has %x", h, cb.ReprHash())
